@@ -1302,7 +1302,7 @@ func main() {
 			})
 			fams = append(fams, mc.Family{
 				Name: "int-public-path-widths-hints", Items: len(sp), Budget: budget,
-				Rule: fmt.Sprintf("item = one of the %d special integers v (boundaries, powers of two +-3) as advance width (hsbw), as vertical advance with width -v-1 (sbw), as single large delta (moveto/lineto/curveto), and - inside 16 bits - as stem hint edges; choice = file format; Write -> Read exact, -> independent decoder exact with proper formats; non-trivial = all", len(sp)),
+				Rule: fmt.Sprintf("item = one of the %d special integers v (boundaries, powers of two +-3) as advance width (hsbw), as vertical advance with width -v-1 (sbw), as single large delta (moveto/lineto/curveto), and - inside 16 bits - as stem hint edges (for |v| > 16000 as stems from -|v| to |v|, whose width needs the five-byte form); choice = file format; Write -> Read exact, -> independent decoder exact with proper formats; non-trivial = all", len(sp)),
 				Body: func(c *mc.Ctx, item int) mc.Verdict {
 					v := sp[item]
 					fi := c.Choose(len(formats))
@@ -1325,6 +1325,14 @@ func main() {
 					if v >= -16000 && v <= 16000 {
 						g.HStem = []funit.Int16{funit.Int16(v), funit.Int16(2 * v)}
 						g.VStem = []funit.Int16{funit.Int16(-v), funit.Int16(v)}
+					} else if v >= -32767 && v <= 32767 {
+						// stems whose two edges are up to 65534 apart: the width needs the five-byte form
+						a := v
+						if a < 0 {
+							a = -a
+						}
+						g.HStem = []funit.Int16{funit.Int16(-a), funit.Int16(a)}
+						g.VStem = []funit.Int16{funit.Int16(-a - 1), funit.Int16(a - 1), funit.Int16(-a), funit.Int16(0)}
 					}
 					what := fmt.Sprintf("value %d (variant %d)", v, variant)
 					if vd := publicRoundTrip(c, fontWith(g), fi, what); vd != nil {
